@@ -26,6 +26,8 @@ trait SignedInteger:
     fn from_i64(i: i64) -> Self;
 
     fn from_u32(u: u32) -> Self;
+
+    fn wrapping_add(self, rhs: Self) -> Self;
 }
 
 impl SignedInteger for i32 {
@@ -38,6 +40,11 @@ impl SignedInteger for i32 {
     fn from_u32(u: u32) -> i32 {
         u as i32
     }
+
+    #[inline(always)]
+    fn wrapping_add(self, rhs: i32) -> i32 {
+        i32::wrapping_add(self, rhs)
+    }
 }
 
 impl SignedInteger for i64 {
@@ -49,6 +56,11 @@ impl SignedInteger for i64 {
     #[inline(always)]
     fn from_u32(u: u32) -> i64 {
         u as i64
+    }
+
+    #[inline(always)]
+    fn wrapping_add(self, rhs: i64) -> i64 {
+        i64::wrapping_add(self, rhs)
     }
 }
 
@@ -1520,7 +1532,7 @@ fn read_subframes<R: BitRead>(
                     read_subframe(&mut reader, side_bps, side)?;
 
                     left.iter().zip(side.iter_mut()).for_each(|(left, side)| {
-                        *side = *left - *side;
+                        *side = left.wrapping_sub(*side);
                     });
                 }
                 None => {
@@ -1556,7 +1568,7 @@ fn read_subframes<R: BitRead>(
                     read_subframe(&mut reader, header.bits_per_sample.into(), right)?;
 
                     side.iter_mut().zip(right.iter()).for_each(|(side, right)| {
-                        *side += *right;
+                        *side = side.wrapping_add(*right);
                     });
                 }
                 None => {
@@ -1594,9 +1606,9 @@ fn read_subframes<R: BitRead>(
                     read_subframe(&mut reader, side_bps, side)?;
 
                     mid.iter_mut().zip(side.iter_mut()).for_each(|(mid, side)| {
-                        let sum = *mid * 2 + side.abs() % 2;
-                        *mid = (sum + *side) >> 1;
-                        *side = (sum - *side) >> 1;
+                        let sum = mid.wrapping_mul(2).wrapping_add(side.wrapping_abs() % 2);
+                        *mid = sum.wrapping_add(*side) >> 1;
+                        *side = sum.wrapping_sub(*side) >> 1;
                     });
                 }
                 None => {
@@ -1737,7 +1749,9 @@ fn predict<I: SignedInteger>(coefficients: &[i64], qlp_shift: u32, channel: &mut
     for split in coefficients.len()..channel.len() {
         let (predicted, residuals) = channel.split_at_mut(split);
 
-        residuals[0] += I::from_i64(
+        // residuals come from an untrusted stream, so the sum
+        // is allowed to wrap rather than overflow
+        residuals[0] = residuals[0].wrapping_add(I::from_i64(
             predicted
                 .iter()
                 .rev()
@@ -1745,7 +1759,7 @@ fn predict<I: SignedInteger>(coefficients: &[i64], qlp_shift: u32, channel: &mut
                 .map(|(x, y)| (*x).into() * y)
                 .sum::<i64>()
                 >> qlp_shift,
-        );
+        ));
     }
 }
 
